@@ -1,10 +1,10 @@
 package main
 
 import (
-	"regexp"
 	"fmt"
 	"go/ast"
 	"go/types"
+	"regexp"
 	"sort"
 	"strings"
 )
@@ -567,14 +567,14 @@ func c17NewContract(c *Ctx, si *symInterp) {
 }
 
 type renewalPath struct {
-	fn    string
-	idx   int
-	tag   string
-	state *symState
-	ren   *SV
-	usage *SV
-	fcIn  string
-	where string
+	fn     string
+	idx    int
+	tag    string
+	state  *symState
+	ren    *SV
+	usage  *SV
+	fcIn   string
+	where  string
 	prices *SV
 }
 
